@@ -137,6 +137,21 @@ def run(ctx):
     m = json.loads(doc("uint8", 1))
     m["primaryType"] = "U"
     add(json.dumps(m), False, "undefined-struct")
+    # ---- names that look like atomic types but are not: as an undeclared member type the document is ill-typed; declared
+    # as a struct type of that name the document is well-typed (the atomic types are exactly bool, address, string, bytes,
+    # bytes1..32, uintN / intN for N = 8, 16, .., 256: no aliases, no other sizes, no other letter case)
+    for nm in ("uint", "int", "byte", "bytes0", "bytes33", "uint0", "uint9", "uint264", "int0", "int7", "int512", "fixed", "ufixed",
+               "fixed128x18", "uint256x", "Bool", "BOOL", "Address", "String", "STRING", "Bytes", "Bytes32", "Uint256", "function", "enum", "tuple", "number",
+               "uint 256", "uint256 ", " uint256", "uint_256", "char", "boolean", "addr", "str", "uint8_t", "u8", "i256", "bytes32[", "uint8]"):
+        for v in (1, "1", "0x01", True, "0x" + "11" * 20, {"lo": 7}):
+            add(doc(nm, v), False, "near-atomic-name/undeclared")
+        add(doc(nm + "[]", []), False, "near-atomic-name/undeclared")
+        add(doc(nm + "[2]", [1, 2]), False, "near-atomic-name/undeclared")
+        if "[" not in nm and "]" not in nm:
+            decl = {nm: [("lo", "uint128"), ("hi", "int128")]}
+            add(doc(nm, {"lo": 7, "hi": -1}, decl), True, "near-atomic-name/declared-struct")
+            add(doc(nm + "[]", [{"lo": "1", "hi": "0"}, {"lo": 2, "hi": -2}], decl), True, "near-atomic-name/declared-struct")
+            add(doc(nm, 7, decl), False, "near-atomic-name/declared-struct-given-a-number")
     # ---- wrong kind matrix
     values = {"null": None, "bool": True, "int": 1, "float": 1.5, "string": "abc", "hexstring": "0x01", "array": [1], "object": {"x": True}, "empty-array": [], "neg": -1}
     kinds = {"bool": {"bool"}, "address": set(), "string": {"string", "hexstring"}, "bytes": {"hexstring"}, "bytes1": {"hexstring"}, "uint8": {"int", "hexstring"},
